@@ -41,8 +41,7 @@ def run(index, rep):
     rep.guard(bump, index, rep)
 
 
-def cap(index, rep, fn):
-    rule = "C18.CAP"
+def cap(index, rep, fn, rule="C18.CAP"):
     # evaluate the prefix of the function up to the statement that builds the ceiling
     body = [s for s in fn.body if not (isinstance(s, ast.Expr) and isinstance(s.value, ast.Constant))]
     upto = None
